@@ -162,6 +162,7 @@ func (c *Handle) send(msgType MessageType, b []byte) error {
 	// Preserve packet write order without holding the session lock during
 	// socket I/O. Close only needs the session lock, so a blocked write cannot
 	// prevent it from completing.
+	verifYield("h.send.lock")
 	c.writeLock.Lock()
 	defer c.writeLock.Unlock()
 
@@ -178,6 +179,7 @@ func (c *Handle) send(msgType MessageType, b []byte) error {
 		return err
 	}
 
+	verifYield("h.send.sock")
 	written, _, err := c.underlying.WriteMsgUDP(pkt, nil, remoteAddr)
 	if err != nil {
 		go c.Close()
@@ -192,6 +194,7 @@ func (c *Handle) send(msgType MessageType, b []byte) error {
 
 // Close closes the connection. Future operations on non-buffered data will return io.EOF.
 func (c *Handle) Close() error {
+	verifYield("h.close.lock")
 	c.ss.m.Lock()
 	defer c.ss.m.Unlock()
 	err := c.ss.closeLocked()
